@@ -668,13 +668,7 @@ def num_method(ty, name):
         def f(ev, st, info, args):
             es = seq_elems(args[0], width)
             v = T.mk_be(es) if name == 'from_be_bytes' else T.mk_le(es)
-            # be(byte_{n-1}(x), .., byte_0(x)) is x when x fits in n bytes on this path
-            if v[0] in ('be', 'le') and all(b[0] == 'byte' and b[2] == v[1][0][2] for b in v[1]):
-                x = v[1][0][2]
-                order = [b[1] for b in v[1]]
-                want = list(range(width - 1, -1, -1)) if v[0] == 'be' else list(range(width))
-                if order == want and solver.entails(st.pc, T.band_bool(T.ge0(x), T.ge0(T.sub(I(256 ** width - 1), x)))):
-                    v = x
+            v = ev.fold_bytes(v, st)
             if ty.startswith('i') and v[0] != 'int':
                 v = ('call', 'signed:' + ty, (v,))
             return [(st, v)]
@@ -712,6 +706,16 @@ def num_method(ty, name):
     if name in ('min', 'max'):
         return a_min if name == 'min' else a_max
     return None
+
+
+@ax('std::mem::size_of', 'core::mem::size_of', note='size_of of the primitive integer types')
+def a_size_of(ev, st, info, args):
+    t = ty_arg(info, 0)
+    name = tys.show(t) if t is not None else '?'
+    sizes = {'u8': 1, 'i8': 1, 'u16': 2, 'i16': 2, 'u32': 4, 'i32': 4, 'u64': 8, 'i64': 8, 'u128': 16, 'i128': 16, 'usize': 8, 'isize': 8, 'bool': 1, 'char': 4}
+    if name in sizes:
+        return [(st, I(sizes[name]))]
+    return [(st, ('opaque', 'size_of::<%s>' % name))]
 
 
 @ax('std::cmp::min', 'std::cmp::Ord::min', note='min of two integers; total')
@@ -802,6 +806,26 @@ def a_filter(ev, st, info, args):
         for s3, cond in ev.apply_closure(args[1], [v], s2, info['fr'], info['site']):
             for s4, b in fork_bool(s3, cond):
                 outs.append((s4, some(v) if b else NONE))
+    return outs
+
+
+@ax('std::option::Option::<T>::as_mut', note='as_mut: Some(&mut payload) or None; total')
+def a_as_mut(ev, st, info, args):
+    r = args[0]
+    if r[0] != 'ref':
+        return [(st, ('opaque', 'as_mut on untracked storage'))]
+    v = ev.deref(r, st)
+    outs = []
+    for s2, var, get in fork_enum(st, v, 'Option', ['Some', 'None']):
+        outs.append((s2, some(('ref', r[1], r[2] + (('f', '0', 'Some'),))) if var == 'Some' else NONE))
+    return outs
+
+
+@ax('std::option::Option::<T>::as_ref', 'std::option::Option::<T>::as_deref', note='as_ref / as_deref: a view of the same payload; total')
+def a_as_ref(ev, st, info, args):
+    outs = []
+    for s2, var, get in fork_enum(st, args[0], 'Option', ['Some', 'None']):
+        outs.append((s2, some(content(get('0'))) if var == 'Some' else NONE))
     return outs
 
 
